@@ -419,6 +419,14 @@ func Exec(args []string, env *Env) int {
 		}
 		Emit(&Event{Ev: "rv", ID: c.ID, Key: key, Note: note, Seq: k, Path: name})
 	}
+	if n := atoi(opts["chatter"], 0); n > 0 && !env.InProc {
+		// a verbose tool: progress lines on stdout and stderr (nothing of it goes into a file)
+		line := strings.Repeat("progress ", 7) + "\n"
+		for w := 0; w < n; w += 2 * len(line) {
+			os.Stdout.WriteString(line)
+			os.Stderr.WriteString(line)
+		}
+	}
 	if d := atoi(opts["sleep"], 0); d > 0 {
 		time.Sleep(time.Duration(d) * time.Millisecond)
 	}
